@@ -1,4 +1,3 @@
-OPEN "pre.txt" FOR RANDOM AS #1 LEN = 4
-FIELD #1, 4 AS F1$
-CLOSE #1
+OPEN "b.txt" FOR OUTPUT AS #1
+PRINT #1, "p" + CHR$(200) + "q"
 PRINT EOF(2)
